@@ -225,7 +225,7 @@ Proof.
     pose proof (rep_st_perm _ _ _ P (i_rep _ _ I)) as R.
     assert (ND : NoDup (ids_st (plug (frs, o) (l1 ++ tx :: l2)))).
     { eapply Permutation_NoDup; [apply ids_st_perm; exact P|exact (inv_nodup _ _ I)]. }
-    destruct (unlink_rep _ _ _ _ _ _ R ND) as (h' & Eu & M & R' & F).
+    destruct (unlink_rep _ _ _ _ _ _ R ND) as (h' & Eu & M & R' & F & _).
     rewrite Eu. cbn [rbind]. eexists. split; [reflexivity|].
     apply (inv_relink _ _ _ _ I M).
     + rewrite rep_st_app. rewrite rep_st_cons in R'. destruct R' as [Rx Rp].
